@@ -552,6 +552,9 @@ func (x *e2Ctx) retNode(r *ssa.Return) *e2Node {
 		return &e2Node{kind: "ret", note: "noerr"}
 	}
 	if isNilConst(ev) {
+		if n := x.delegatedThenNil(r); n != "" {
+			return &e2Node{kind: "ret", note: n}
+		}
 		return &e2Node{kind: "ret", note: "nil"}
 	}
 	if definitelyError(ev, r) {
@@ -1095,6 +1098,9 @@ func (x *e2Ctx) pathOf(v ssa.Value, d int) string {
 		}
 		if sf := cc.StaticCallee(); sf != nil && inUio(sf) && strings.HasPrefix(sf.Name(), "Read") {
 			return "prev" + strings.TrimPrefix(sf.Name(), "Read")
+		}
+		if sf := cc.StaticCallee(); sf != nil && freshConstructor(sf) {
+			return "" // like the local allocation the call stands for (the object being built)
 		}
 		constArgs := func(args []ssa.Value) string {
 			if !x.callArgs {
@@ -1689,7 +1695,7 @@ func (x *e2Ctx) dstOf(v ssa.Value) (string, string) {
 					default:
 						// a module function that stores the value handed to it (o.Add(opt), list.push(v)): where the callee
 						// puts its parameter, in the caller's terms
-						if inModule(sf) && sf.Blocks != nil && x.depth < 3 && len(sf.Blocks) <= 4 {
+						if inModule(sf) && sf.Blocks != nil && x.depth < 3 && (len(sf.Blocks) <= 4 || freshConstructor(sf)) {
 							for ai, a := range cc.Args {
 								if a != it.v || ai >= len(sf.Params) {
 									continue
@@ -1717,7 +1723,9 @@ func (x *e2Ctx) dstOf(v ssa.Value) (string, string) {
 								}
 							}
 						}
-						if inModule(sf) && sf.Signature.Results().Len() >= 1 {
+						if inModule(sf) && freshConstructor(sf) {
+							// the result is a new object chosen by the value, not the value
+						} else if inModule(sf) && sf.Signature.Results().Len() >= 1 {
 							if _, isTuple := t.Type().(*types.Tuple); !isTuple && !isErrorType(t.Type()) {
 								follow(item{t, append(append([]string{}, it.xs...), "call:"+sf.Name())}, d+1)
 							}
@@ -2807,4 +2815,151 @@ func e2EmptyGuard(n *e2Node) []*e2Node {
 		}
 	}
 	return full
+}
+
+
+// freshConstructor: an unexported function of the module without loops or calls whose single result is, on every return,
+// an object allocated in it (possibly boxed in an interface), and whose only stores go into those objects —
+// `func newDUID(typ DUIDType) DUID { switch typ { case …: return &DUIDLLT{} … default: return &DUIDOpaque{Type: typ} } }`.
+// A call of it stands for the allocation of the object a decoder is building.
+var freshCtorMemo = map[*ssa.Function]bool{}
+
+func freshConstructor(f *ssa.Function) bool {
+	if v, ok := freshCtorMemo[f]; ok {
+		return v
+	}
+	res := func() bool {
+		if f == nil || f.Blocks == nil || !inModule(f) || token.IsExported(f.Name()) || f.Signature.Recv() != nil || f.Signature.Results().Len() != 1 {
+			return false
+		}
+		for _, b := range f.Blocks {
+			if inCycle(b) {
+				return false
+			}
+		}
+		allocOf := func(v ssa.Value) *ssa.Alloc {
+			for {
+				switch t := v.(type) {
+				case *ssa.MakeInterface:
+					v = t.X
+					continue
+				case *ssa.ChangeType:
+					v = t.X
+					continue
+				}
+				break
+			}
+			al, _ := v.(*ssa.Alloc)
+			if al != nil && al.Heap {
+				return al
+			}
+			return nil
+		}
+		fresh := map[*ssa.Alloc]bool{}
+		rets := returnsOf(f)
+		if len(rets) < 2 {
+			return false // a single return is within reach of the source inliner
+		}
+		for _, r := range rets {
+			al := allocOf(r.Results[0])
+			if al == nil {
+				return false
+			}
+			fresh[al] = true
+		}
+		ok := true
+		allInstrs(f, func(in ssa.Instruction) {
+			switch t := in.(type) {
+			case *ssa.Call, *ssa.Go, *ssa.Defer, *ssa.Send, *ssa.MapUpdate, *ssa.Panic:
+				_ = t
+				ok = false
+			case *ssa.Store:
+				root := t.Addr
+				for {
+					if fa, isFA := root.(*ssa.FieldAddr); isFA {
+						root = fa.X
+						continue
+					}
+					break
+				}
+				al, isAl := root.(*ssa.Alloc)
+				if !isAl || !(fresh[al] || !al.Heap) {
+					ok = false
+				}
+			}
+		})
+		return ok
+	}()
+	freshCtorMemo[f] = res
+	return res
+}
+
+
+// delegatedThenNil: `if err := d.FromBytes(rest); err != nil { return d, err }; return d, nil` is
+// `return d, d.FromBytes(rest)`: the return of a nil error sits directly on the nil edge of a test of the error of a
+// delegated call made in the testing block, the other edge returns that error unchanged, and nothing else happens on the
+// way. Returns the note of the equivalent direct return, or "".
+func (x *e2Ctx) delegatedThenNil(r *ssa.Return) string {
+	b := r.Block()
+	if len(b.Preds) != 1 {
+		return ""
+	}
+	for _, in := range b.Instrs {
+		switch in.(type) {
+		case *ssa.Return, *ssa.DebugRef, *ssa.MakeInterface, *ssa.ChangeInterface, *ssa.UnOp:
+		default:
+			return ""
+		}
+	}
+	g := b.Preds[0]
+	iff := ifOf(g)
+	if iff == nil {
+		return ""
+	}
+	var errV ssa.Value
+	nl, nn, ok := nilEdgesOf(iff, func(v ssa.Value) bool {
+		if isErrorType(v.Type()) {
+			errV = v
+			return true
+		}
+		return false
+	})
+	if !ok || nl.To != b || errV == nil {
+		return ""
+	}
+	cl, isCall := errV.(*ssa.Call)
+	if !isCall || cl.Block() != g {
+		return ""
+	}
+	// the failing side hands the same error on
+	fb := nn.To
+	fr, isRet := fb.Instrs[len(fb.Instrs)-1].(*ssa.Return)
+	if !isRet || len(fr.Results) == 0 || fr.Results[len(fr.Results)-1] != errV || len(fr.Results) != len(r.Results) {
+		return ""
+	}
+	for i := 0; i < len(r.Results)-1; i++ {
+		if r.Results[i] != fr.Results[i] {
+			return ""
+		}
+	}
+	// the delegated call is the last call of the testing block
+	for i := len(g.Instrs) - 1; i >= 0; i-- {
+		if c2, ok := g.Instrs[i].(*ssa.Call); ok {
+			if c2 != cl {
+				return ""
+			}
+			break
+		}
+	}
+	if sf := cl.Call.StaticCallee(); sf != nil {
+		k := funcKey(sf)
+		if strings.HasSuffix(k, "uio.Lexer).FinError") || strings.HasSuffix(k, "uio.Lexer).Error") {
+			return ""
+		}
+		return "delegated:" + shortName(sf)
+	}
+	if cl.Call.IsInvoke() {
+		return "delegated:" + cl.Call.Method.Name()
+	}
+	return ""
 }
